@@ -43,14 +43,16 @@ Inductive op := OpMove (m : N) | OpNull.
 Definition op_applicable (b : board) (o : op) : bool :=
   match o with OpMove m => applicable b m | OpNull => true end.
 
+(* [l] is the layout of the reverse token (Model/TokLayout.v), [z] the Zobrist table *)
 Section Ops.
+Variable l : tok_layout.
 Variable z : zobrist.
 
 Definition step (b : board) (o : op) : board * N :=
-  match o with OpMove m => make z b m | OpNull => make_null z b end.
+  match o with OpMove m => make_l l z b m | OpNull => make_null_l l z b end.
 
 Definition unstep (b : board) (o : op) (r : N) : board :=
-  match o with OpMove m => undo z b m r | OpNull => undo_null b r end.
+  match o with OpMove m => undo_l l z b m r | OpNull => undo_null_l l b r end.
 
 (* make a list of operations; the stack holds them with their tokens, latest first *)
 Fixpoint make_all (b : board) (ops : list op) (st : list (op * N)) : board * list (op * N) :=
